@@ -22,6 +22,7 @@ import (
 // according to a per-token script; faults are triggered inside operations (at the arrival of
 // the k-th attempt at a backend).
 type fwdParams struct {
+	DupPrepares bool // some PREPAREs repeat the text of an earlier one
 	TracedPrepares  bool // some PREPAREs ask for tracing
 	Hosts, NumConns int
 	Clients         int
@@ -258,6 +259,18 @@ func (f *fwd) sendOne(i int) {
 		ri.specs = f.script(tok, c.Version)
 		ri.req = c.Send("query", tok, world.QueryMsg(st.Text, cl), nil)
 	case kPrepare:
+		if f.p.DupPrepares && len(f.preps) > 0 && ch.Choose("dupprepare", 3) == 2 {
+			// the same statement text again (every client of an application prepares the same
+			// statements, often at the same moment): same text, same id, possibly while the earlier
+			// PREPARE is still in flight
+			p0 := f.preps[ch.Choose("dupwhich", len(f.preps))]
+			ri.kind, ri.idem = "prepare", true
+			ri.req = c.Send("prepare", p0.token, &message.Prepare{Query: p0.stmt.Text}, nil)
+			ri.prep = &prepInfo{stmt: p0.stmt, by: c, token: p0.token}
+			f.preps = append(f.preps, ri.prep)
+			f.w.Stat("probe.duplicate_prepare_sent")
+			break
+		}
 		st := world.DrawStmt(ch, "?", "ks.t_"+tok)
 		ri.kind, ri.idem = "prepare", true
 		ri.specs = f.script(tok, c.Version)
